@@ -170,3 +170,57 @@ pub fn bin_obs(b: &Binary) -> Value {
 pub fn arg<T: serde::de::DeserializeOwned>(args: &Value, i: usize) -> Result<T, String> {
     serde_json::from_value(args[i].clone()).map_err(|e| format!("bad arg {}: {}", i, e))
 }
+
+// ---------------------------------------------------------------- reply echo
+#[derive(serde::Serialize, serde::Deserialize, Clone, Debug, PartialEq, schemars::JsonSchema)]
+pub struct Pt {
+    pub x: u32,
+    pub y: String,
+}
+
+/// Echo for reply handlers: records who ran and everything it was handed.
+pub fn echo_reply<Q: CustomQuery, C>(
+    name: &str,
+    ctx: svfw::ctx::ReplyCtx<Q>,
+    first: Option<String>,
+    payload: Vec<String>,
+) -> StdResult<Response<C>> {
+    let mut log = read_log(ctx.deps.storage);
+    log.push(name.to_string());
+    ctx.deps.storage.set(b"log", &serde_json::to_vec(&log).unwrap());
+    if let Fail::Std = fail_mode(ctx.deps.storage) {
+        return Err(StdError::generic_err(format!("handler {} failed", name)));
+    }
+    Ok(Response::new()
+        .add_attribute("handler", name)
+        .add_attribute("gas_used", ctx.gas_used.to_string())
+        .add_attribute("events", j(&ctx.events))
+        .add_attribute("msg_responses", j(&ctx.msg_responses))
+        .add_attribute("first", first.unwrap_or_else(|| "<none>".to_string()))
+        .add_attribute("payload", j(&payload))
+        .add_attribute("height", ctx.env.block.height.to_string()))
+}
+
+pub fn reply_from(op: &Value) -> svfw::cw_std::Reply {
+    use svfw::cw_std::{Event, MsgResponse, Reply, SubMsgResponse, SubMsgResult};
+    let result = if let Some(e) = op["result"]["err"].as_str() {
+        SubMsgResult::Err(e.to_string())
+    } else {
+        let ok = &op["result"]["ok"];
+        let events: Vec<Event> = serde_json::from_value(ok["events"].clone()).unwrap_or_default();
+        let msg_responses: Vec<MsgResponse> = serde_json::from_value(ok["msg_responses"].clone()).unwrap_or_default();
+        let data = ok["data"].as_str().map(|s| Binary::from_base64(s).unwrap_or_default());
+        #[allow(deprecated)]
+        SubMsgResult::Ok(SubMsgResponse { events, data, msg_responses })
+    };
+    Reply {
+        id: op["id"].as_u64().unwrap_or(0),
+        payload: Binary::from_base64(op["payload"].as_str().unwrap_or("")).unwrap_or_default(),
+        gas_used: op["gas_used"].as_u64().unwrap_or(0),
+        result,
+    }
+}
+
+pub fn inst_obs(d: &svfw::cw_utils::MsgInstantiateContractResponse) -> String {
+    format!("{}|{}", d.contract_address, d.data.as_ref().map(|b| b.to_base64()).unwrap_or_else(|| "none".into()))
+}
